@@ -5,6 +5,7 @@ CONSTANTS
   MaxWrite = 4
   Bufs = {0, 1, 2, 3, 4}
   Shorts = {0, 1, 2}
+  Glitches = {"dataerr", "temperr", "eofdata"}
 INIT Init
 NEXT Next
 VIEW View
